@@ -200,43 +200,63 @@ def rule_a(ctx, out):
         out.bad("document-version-not-copied", "the compiler version written is not the one read", where(wj))
 
 
-def rule_b(ctx, out):
-    rd = ctx.func(f"{P}.build_asm_bytecode")
-    item = rd.params[0]
+def _parse_serialise(ctx, records, flag):
+    """[(record, item stand-in, serialised dict)] for a list of assembly records parsed in sequence by the repository's own
+    build_asm_bytecode (one PUSHLIB table for the sequence) and serialised by its own AsmBytecode.to_json — abstract evaluation."""
+    from ..core.interp import ModuleInterp
+    from ..core.minieval import Unsupported, Raised
     cls = ctx.p.cls(BC)
-    init_params = [p for p in cls.methods["__init__"].params if p != "self"]
-    name_pos = init_params.index("disasm") if "disasm" in init_params else 3
-    value_pos = init_params.index("value") if "value" in init_params else 4
-    # which local holds the parsed name
-    name_locals = {n.targets[0].id for n in own_nodes(rd.node) if isinstance(n, ast.Assign) and isinstance(n.targets[0], ast.Name)
-                   and any((isinstance(x, ast.Constant) and x.value == "name") for x in ast.walk(n.value))}
-    for c in calls_in(rd.node, "AsmBytecode"):
-        a = c.args[name_pos] if len(c.args) > name_pos else None
-        if isinstance(a, ast.Name) and a.id in name_locals:
-            out.ok({"construct": short(c, 70), "name": "as parsed"})
-        elif isinstance(a, ast.Constant) and a.value == "PUSH0":
-            # allowed only with value None (spelling without operand); guard is C17.b's business
-            v = c.args[value_pos] if len(c.args) > value_pos else None
-            if isinstance(v, ast.Constant) and v.value is None:
-                out.ok({"construct": short(c, 70), "name": "PUSH0 spelling (documented exception)"})
+    rd = ctx.func(f"{P}.build_asm_bytecode")
+    mi = ModuleInterp(ctx, max_steps=200000)
+    Item = mi.fake_class(cls)
+    mi.extern["AsmBytecode"] = mi.constructor(cls, lambda: Item())
+    mi.module_env("global_params.constants")["push0_enabled"] = flag
+    table, res = {}, []
+    for r in records:
+        try:
+            it = mi.call(rd, dict(r), table)
+            js = mi.call(cls.methods["to_json"], it)
+        except Raised as e:
+            res.append((r, None, ("raises", e.what)))
+            continue
+        except Unsupported as e:
+            raise AnalysisError(f"build_asm_bytecode / to_json cannot be evaluated abstractly on {r}: {e}")
+        res.append((r, it, js))
+    return res, mi, Item
+
+
+def _rec(name, value=None, **kw):
+    r = {"begin": 3, "end": 9, "name": name, "source": 2}
+    if value is not None:
+        r["value"] = value
+    r.update(kw)
+    return r
+
+
+def rule_b(ctx, out):
+    """Between parse and serialise an item changes only through the documented PUSH0 spelling: for every kind of record, to_json of
+    the parsed item is the record again; with the flag on, `PUSH 0` becomes `PUSH0` without operand and nothing else changes."""
+    rd = ctx.func(f"{P}.build_asm_bytecode")
+    family = [_rec("PUSH", "0"), _rec("PUSH", "1"), _rec("PUSH", "FF"), _rec("PUSH", "00"), _rec("PUSH [tag]", "5"), _rec("tag", "3"), _rec("JUMPDEST"),
+              _rec("JUMP", None, jumpType="[in]"), _rec("ADD"), _rec("PUSHIMMUTABLE", "ab12"), _rec("ASSIGNIMMUTABLE", "ab12"), _rec("PUSH data", "A1"),
+              _rec("PUSH #[$]", "0000000000000000000000000000000000000000000000000000000000000001"), _rec("PUSHSIZE"), _rec("PUSHDEPLOYADDRESS"),
+              _rec("SWAP1", None, modifierDepth=1), _rec("PUSH0")]
+    for flag in (False, True):
+        res, _, _ = _parse_serialise(ctx, family, flag)
+        for r, it, js in res:
+            want = dict(r)
+            if flag and r["name"] == "PUSH" and r.get("value") == "0":
+                want = {k: v for k, v in r.items() if k != "value"}
+                want["name"] = "PUSH0"
+            if js == want:
+                out.ok({"record": f"{r['name']} {r.get('value', '')}".strip(), "push0_flag": flag, "round_trip": "identical" if want == r else "PUSH0 spelling"})
+            elif isinstance(js, tuple):
+                out.bad(f"build_asm_bytecode:raises:{r['name']}", f"parsing/serialising the record {r} raises {js[1]}", where(rd))
             else:
-                out.bad("build_asm_bytecode:push0-with-operand", "the PUSH0 spelling is constructed with an operand", where(rd, c))
-        else:
-            out.bad(f"build_asm_bytecode:name-rewritten:{norm(a) if a is not None else '?'}", "an item is constructed with a name other than the "
-                    "parsed one (only the PUSH0 spelling may differ)", where(rd, c))
-    # to_json omits value exactly when self.value is None, and writes name from self.disasm
-    wr = cls.methods["to_json"]
-    w = keys_written(wr.node)
-    nm = [v for v, _, _ in w.get("name", [])]
-    if nm and all(norm(v) == "self.disasm" for v in nm):
-        out.ok({"writer": "name <- self.disasm"})
-    else:
-        out.bad("AsmBytecode.to_json:name-source", "the written name is not self.disasm", where(wr))
-    vg = [g for _, _, g in w.get("value", [])]
-    if vg and all(g is not None and norm(g) == "self.value is not None" for g in vg):
-        out.ok({"writer": "value omitted iff self.value is None"})
-    else:
-        out.bad("AsmBytecode.to_json:value-guard", "value is not written exactly when self.value is not None", where(wr))
+                field = next((k for k in sorted(set(js) | set(want)) if js.get(k) != want.get(k)), "?")
+                what = "name-rewritten" if field == "name" else "push0-with-operand" if want.get("name") == "PUSH0" and field == "value" else f"field-changed:{field}"
+                out.bad(f"build_asm_bytecode:{what}:{r['name']}", f"the record {r} is serialised as {js} (PUSH0 flag {'on' if flag else 'off'}): only the PUSH0 "
+                        f"spelling of `PUSH 0` may differ from what was parsed", where(rd))
     # nobody else mutates item fields (shared with C09.b)
     n = check_item_immutability(ctx, out)
     out.ok({"item_fields_assigned_only_in": "AsmBytecode.__init__", "fields_checked": n})
@@ -291,47 +311,47 @@ def check_item_immutability(ctx, out):
 
 
 def rule_c(ctx, out):
+    """Library references: while a block is parsed every PUSHLIB gets the number of its library in order of first occurrence (the
+    internal value the specification works with), the item keeps the library name as real_value, and to_json writes the name.  An
+    item constructed without a real value (what ids2asm does) takes its value as real value."""
     rd = ctx.func(f"{P}.build_asm_bytecode")
-    # renumbering only under name == 'PUSHLIB'
-    # the constructor call tells which locals are the item's value and real_value
-    ctor = [c for c in calls_in(rd.node, "AsmBytecode") if len(c.args) >= 8 and isinstance(c.args[4], ast.Name) and isinstance(c.args[7], ast.Name)]
-    if not ctor:
-        raise AnalysisError("build_asm_bytecode: AsmBytecode(..., value, ..., real_value) construction not found")
-    VALUE, REAL = ctor[0].args[4].id, ctor[0].args[7].id
-    renumber = []
-    for n in own_nodes(rd.node):
-        if isinstance(n, ast.Assign) and is_name(n.targets[0], VALUE) and isinstance(n.value, ast.Subscript) and isinstance(n.value.value, ast.Name) \
-                and n.value.value.id in rd.params[1:]:
-            renumber.append(n)
-    if not renumber:
-        raise AnalysisError("build_asm_bytecode: PUSHLIB renumbering not found")
-    for n in renumber:
-        p = getattr(n, "_parent", None)
-        ok = isinstance(p, ast.If) and n in p.body and isinstance(p.test, ast.Compare) and any(
-            isinstance(x, ast.Constant) and x.value == "PUSHLIB" for x in ast.walk(p.test))
-        if ok:
-            # real_value keeps the original in the same branch
-            keeps = any(isinstance(s, ast.Assign) and is_name(s.targets[0], REAL) for s in p.body)
-            if keeps:
-                out.ok({"PUSHLIB": "value renumbered, real_value keeps the original"})
+    libs = ["c/B.sol:LibB", "c/A.sol:LibA", "c/B.sol:LibB", "c/C.sol:LibC", "c/A.sol:LibA"]
+    family = [_rec("PUSHLIB", libs[0]), _rec("PUSH", "1"), _rec("PUSHLIB", libs[1]), _rec("PUSHLIB", libs[2]), _rec("ADD"), _rec("PUSHLIB", libs[3]), _rec("PUSHLIB", libs[4])]
+    res, mi, Item = _parse_serialise(ctx, family, False)
+    order = []
+    for r, it, js in res:
+        if isinstance(js, tuple):
+            out.bad(f"build_asm_bytecode:raises:{r['name']}", f"parsing/serialising the record {r} raises {js[1]}", where(rd))
+            continue
+        if r["name"] == "PUSHLIB":
+            if r["value"] not in order:
+                order.append(r["value"])
+            idx = order.index(r["value"])
+            if str(it.value) != str(idx):
+                out.bad("build_asm_bytecode:pushlib-numbering", f"the {len(order)}-th library of the block ({r['value']}) gets the internal value {it.value!r}; the "
+                        f"specification identifies libraries by order of first occurrence ({idx})", where(rd))
+            elif it.real_value != r["value"]:
+                out.bad("build_asm_bytecode:pushlib-real-value-lost", f"the item parsed from {r} has real_value {it.real_value!r}", where(rd))
+            elif js != r:
+                out.bad("AsmBytecode.to_json:writes-index-instead-of-real-value", f"the PUSHLIB record {r} is serialised as {js}", where(ctx.p.cls(BC).methods["to_json"]))
             else:
-                out.bad("build_asm_bytecode:pushlib-real-value-lost", "PUSHLIB branch does not keep the original value in real_value", where(rd, n))
+                out.ok({"PUSHLIB": r["value"], "internal_value": it.value, "serialised": js.get("value")})
         else:
-            out.bad("build_asm_bytecode:value-renumbered-outside-pushlib", "an item's value is replaced by an index outside the PUSHLIB branch", where(rd, n))
-    wr = ctx.p.cls(BC).methods["to_json"]
-    vals = [v for v, _, _ in keys_written(wr.node).get("value", [])]
-    if vals and all(norm(v) == "self.real_value" for v in vals):
-        out.ok({"writer": "value <- self.real_value"})
-    else:
-        out.bad("AsmBytecode.to_json:writes-index-instead-of-real-value", f"to_json writes {[norm(v) for v in vals]} under \"value\"; PUSHLIB items "
-                "would serialise their renumbered index", where(wr))
-    init = ctx.p.cls(BC).methods["__init__"]
-    rv = [n for n in own_nodes(init.node) if isinstance(n, ast.Assign) and isinstance(n.targets[0], ast.Attribute) and n.targets[0].attr == "real_value"]
-    ok = rv and all(isinstance(n.value, ast.IfExp) and "real_value" in norm(n.value.body) and norm(n.value.orelse) == "value" for n in rv)
-    if ok:
+            if it.value != r.get("value") or it.real_value != r.get("value"):
+                out.bad("build_asm_bytecode:value-renumbered-outside-pushlib", f"the item parsed from {r} has value {it.value!r} / real_value {it.real_value!r}", where(rd))
+            else:
+                out.ok()
+    # default of real_value
+    make = mi.extern["AsmBytecode"]
+    try:
+        it = make(-1, -1, -1, "PUSH [tag]", "7")
+    except Exception as e:   # Unsupported / Raised from the interpreted __init__
+        raise AnalysisError(f"AsmBytecode.__init__ cannot be evaluated abstractly: {e}")
+    if it.real_value == "7" and it.value == "7":
         out.ok({"init": "real_value defaults to value"})
     else:
-        out.bad("AsmBytecode.__init__:real-value-default", "real_value does not default to value when not given", where(init))
+        out.bad("AsmBytecode.__init__:real-value-default", f"an item constructed with value '7' and no real value has real_value {it.real_value!r}",
+                where(ctx.p.cls(BC).methods["__init__"]))
 
 
 def rule_d(ctx, out):
